@@ -345,6 +345,13 @@ class QueryMixin:
                     f = out_fns[e[1] - 1]
                 elif e[0] == 'col' and e[1] is None and e[2].lower() in scope.aliases:
                     f = scope.aliases[e[2].lower()]
+                elif e[0] == 'col' and e[1] is None and \
+                        sum(1 for nm in out_names if str(nm).lower() == e[2].lower()) == 1:
+                    # "MySQL resolves unqualified column or alias references in ORDER BY clauses by searching in the
+                    # select_expr values, then in the columns of the tables in the FROM clause" (13.2.13 SELECT):
+                    # a column that the select list names exactly once (also through t.*) is that select column, even
+                    # if several FROM tables have a column of that name
+                    f = out_fns[next(i for i, nm in enumerate(out_names) if str(nm).lower() == e[2].lower())]
                 else:
                     f = self.c_expr(scope, e)
                 order_fns.append((f, desc))
